@@ -15,6 +15,8 @@ package fdpool
 import (
 	"container/list"
 	"sync"
+
+	"github.com/go-git/go-git/v6/internal/verifhook"
 )
 
 // Member is the interface a pool entry must implement. On eviction
@@ -205,6 +207,7 @@ func (p *Pool) Touch(m Member, h *Handle) {
 			// elsewhere (e.g. packhandle.doClose) and is recorded
 			// here so the asymmetry doesn't read as an oversight.
 			p.mu.Unlock()
+			verifhook.Yield("fdpool.Touch:evict")
 			err := victimEnt.m.ReleaseNow()
 			p.mu.Lock()
 			if err != nil {
